@@ -7,11 +7,16 @@ PROOFS = {
             'PybindWrapper.wrap_ctors', 'PybindWrapper._wrap_dunder', 'PybindWrapper.wrap_dunder_methods',
             'PybindWrapper.wrap_properties', 'PybindWrapper.wrap_operators', 'PybindWrapper.wrap_variable',
             'Enum.namespaces', 'Enum.cpp_typename', 'PybindWrapper.wrap_enum', 'PybindWrapper.wrap_enums',
-            'PybindWrapper.wrap_instantiated_declaration'],
+            'PybindWrapper.wrap_instantiated_declaration',
+            # conditional contracts (no method named print, serialization and documentation off): the method binding, the
+            # member folds and the class declaration + member order
+            'PybindWrapper._wrap_method', 'PybindWrapper.wrap_methods', 'PybindWrapper.wrap_functions',
+            'PybindWrapper.wrap_instantiated_class'],
     'C04': ['PybindWrapper._py_args_names', 'PybindWrapper._method_args_signature', 'ArgumentList.list', 'ArgumentList.names',
             'ArgumentList.to_cpp', 'ArgumentList.__len__', 'ReturnType.is_void', 'Method.to_cpp', 'StaticMethod.to_cpp',
             'InstantiatedMethod.to_cpp', 'InstantiatedStaticMethod.to_cpp', 'InstantiatedGlobalFunction.to_cpp',
-            'GlobalFunction.to_cpp', 'PybindWrapper._wrap_serialization', 'PybindWrapper.wrap_ctors'],
+            'GlobalFunction.to_cpp', 'PybindWrapper._wrap_serialization', 'PybindWrapper.wrap_ctors',
+            'PybindWrapper._wrap_method', 'PybindWrapper.wrap_methods', 'PybindWrapper.wrap_functions'],
     'C09': ['collect_namespaces', 'Typename.to_cpp', 'Typename.__repr__', 'Typename.qualified_name', 'Type.to_cpp', 'TemplatedType.to_cpp',
             'PybindWrapper._py_args_names', 'PybindWrapper._method_args_signature', 'PybindWrapper._add_namespaces',
             'PybindWrapper.wrap_variable'],
